@@ -43,6 +43,23 @@
 //     from the source; only the prefix / closure rules are asserted then;
 //   - how many of the undelivered events a cancelled / stopped subscriber
 //     still gets is not pinned beyond "no more than its channel buffer held".
+//
+// Determinism: step mode is deterministic (every select in the manager has
+// exactly one ready case at each step). Concurrent mode is not: goroutines of
+// a batch really race inside the bubble and Go picks randomly among ready
+// select cases, so a concurrent-mode violation may need several replays
+// (VERIF_REPLAY_N) to show again. Operations of a batch can be pinned to "the
+// moment the n-th event of the batch starts to be sent" (Op.AtEvent) so that
+// Stop / Cancel / NewSubscription race with a burst of events instead of
+// running before or after it.
+//
+// Known, very rare outcome on the unchanged tree (seen about once per 2 500
+// Stop-during-burst races in a directed stress loop, never yet by this check
+// within its budget): when Stop races with a burst of events, the handler and
+// notifySubscriber pick randomly between the closed quit channel and their
+// work, so a subscriber can be handed event k+1 without event k just before
+// its channel is closed. The oracle reports it as
+// "C11/stream/gap/concurrent-stop".
 package c11
 
 import (
@@ -816,7 +833,9 @@ func (h *harness) runBatch(ops []Op) {
 			if s.mode == rdSlow && s.delay <= 0 {
 				s.delay = time.Millisecond
 			}
+			h.mu.Lock() // a concurrent Stop of this batch walks h.subs
 			h.subs = append(h.subs, s)
+			h.mu.Unlock()
 			newSubs = append(newSubs, s)
 			startOn(op.StartUs, trigger(op), func() {
 				h.mu.Lock()
@@ -1226,7 +1245,9 @@ func (h *harness) finish() {
 		h.v.Logf("probe: subscribe, emit, cancel")
 		p := &subscriber{idx: len(h.subs), mode: rdNever, end: -1, bufAtEnd: -1, cmd: make(chan int, 1), stall: make(chan struct{}), done: make(chan struct{})}
 		close(p.done)
+		h.mu.Lock()
 		h.subs = append(h.subs, p)
+		h.mu.Unlock()
 		h.spawn(func() {
 			h.mu.Lock()
 			p.recStart, p.loAtCall = len(h.recs), h.sentDone
